@@ -34,7 +34,8 @@ INVARIANT NeverReAddsExplicit
 CHECK_DEADLOCK FALSE
 """
 TRACE_CFG = 'SPECIFICATION TraceSpec\nCONSTANTS\n  InSystem = {"A", "B", "C", "D"}\nINVARIANT Accepted\nCHECK_DEADLOCK FALSE\n'
-SIZES = {'A': (3, 7), 'B': (2, 5), 'C': (4, 6), 'D': (1, 3)}
+# (start atoms, end atoms): coarse -> fine, equal sizes, fine -> coarse, one bead
+SIZES = {'A': (3, 7), 'B': (5, 5), 'C': (6, 4), 'D': (1, 3)}
 RUNNER = os.path.join(os.path.dirname(os.path.abspath(__file__)), 'cli_runner.py')
 
 
@@ -284,7 +285,7 @@ def check(run):
         if not auto and k % 4 == 1:
             # two explicit species, the one with a one- or two-bead start molecule first (its exchange map draws random
             # numbers: the order of alignments and map constructions matters for the random stream)
-            explicit = [str(r.choice(['B', 'D'])), str(r.choice(['A', 'C']))]
+            explicit = ['D', str(r.choice(['A', 'B', 'C']))]
         cands = []
         if auto:
             for s in present:
